@@ -1,7 +1,9 @@
 """C13 -- migration (structural part)."""
-from abtverif import cfg, locks, seq
+import re
+
+from abtverif import canon, cfg, locks, seq, tables
 from abtverif.seq import idx, is_call, show, has_if, held_at
-from . import common, C01, C06
+from . import common, C01, C06, C12
 
 EXPLANATION = (
     "Decides that a migration request publishes its target pool before the request bit (R1); that request handling "
@@ -17,6 +19,7 @@ DECLINED = ["'picks some other running stream when one exists' beyond the reject
             "exactly-once callback over repeated / overwritten requests (histories)"]
 ASSUMPTIONS = ["C14 for the unit re-association performed by ABTI_thread_set_associated_pool"]
 RULES_DOC = dict(common.SHARED_DOC)
+RULES_DOC["R6"] = "= C12.R4: revive clears every pending request (a migration request that was never served does not survive into the revived run)"
 RULES_DOC.update({
     "R1": "thread_migrate_to_pool: target pool stored before REQ_MIGRATE is set; nothing set on the error path",
     "R2": "handle_request_migrate: set_associated_pool once -> callback (<=1, only if registered, with the unit's handle and the registered argument) -> unset REQ_MIGRATE; error paths do nothing else",
@@ -27,23 +30,115 @@ RULES_DOC.update({
 VARIANTS = []
 T = "src/thread.c"
 
+# Canonical (abtverif.canon) spellings used below: only record/field names, callee names, enumerators and macro
+# values of the repository -- never a local variable name, never the polarity or the spelling of a test.
+MIG_POOL = "ABTI_thread_mig_data::p_migration_pool"
+MIG_CB = "ABTI_thread_mig_data::f_migration_cb"
+MIG_CB_ARG = "ABTI_thread_mig_data::p_migration_cb_arg"
+CUR_POOL = "ABTI_thread::p_pool"
+LAST_XSTREAM = "ABTI_thread::p_last_xstream"
+
+
+def _rlabel(rv, rtxt):
+    """Name-independent label of an exit: the constant returned, else `non-constant` (an error code held in a local)."""
+    if rv is not None:
+        return str(rv)
+    return "void" if rtxt is None else "non-constant"
+
+
+def _param_of_type(F, ty):
+    """Name of the only parameter whose type is `ty` (whitespace-insensitive)."""
+    ns = [p["n"] for p in F.params if p["t"].replace(" ", "") == ty.replace(" ", "")]
+    return ns[0] if len(ns) == 1 else None
+
+
+def _macro_value(P, name):
+    """Constant value of an internal object-like macro, read off the expressions it expanded to anywhere in the
+    program (the outermost node produced by the macro body carries the folded value)."""
+    cache = P.__dict__.setdefault("_c13_macro_values", {})
+    if name not in cache:
+        vals = set()
+        for F in P.functions.values():
+            pm = None
+            for i, nd in enumerate(F.nodes):
+                if not nd or not nd.get("m") or nd["m"][0] != name or "cv" not in nd:
+                    continue
+                pm = pm or F.parent_map()
+                par = F.nodes[pm[i]] if i in pm else None
+                if par is not None and par.get("m") and par["m"][0] == name:
+                    continue
+                if any((F.nodes[j].get("m") or [None])[0] != name for j in F.descendants(i)):
+                    continue        # `A | B`: the operator is attributed to the first macro, B's body is not
+                vals.add(nd["cv"])
+        cache[name] = vals.pop() if len(vals) == 1 else None
+    return cache[name]
+
+
+def _eq_sides(label):
+    """(a, b) of a canonical equality label `a == b` (top level), else None."""
+    depth = 0
+    for k in range(len(label)):
+        c = label[k]
+        if c in "([{":
+            depth += 1
+        elif c in ")]}":
+            depth -= 1
+        elif depth == 0 and label.startswith(" == ", k):
+            return label[:k], label[k + 4:]
+    return None
+
+
+def _call_args(F, tok):
+    """Canonical (name-independent) rendering of the arguments of a call / icall token."""
+    return [canon.expr(F, a) for a in F.nodes[tok[-1]]["a"]]
+
+
+def _resolve(F, i, depth=3):
+    """Node a local (pointer / value temporary) stands for: follow single reaching definitions."""
+    i = F.strip(i)
+    while depth > 0:
+        nd = F.nodes[i]
+        if nd.get("k") != "ref" or nd.get("dk") != "var":
+            break
+        d = canon.reaching_def(F, nd["n"], i)
+        if not isinstance(d, int):
+            break
+        i = F.strip(d)
+        depth -= 1
+    return i
+
+
+def _lock_fields(F):
+    """lock key (as used by locks.run_locks) -> (record, field) of the lock object, through pointer temporaries."""
+    out = {}
+    for table in (tables.LOCK_ACQUIRE, tables.LOCK_COND_ACQUIRE):
+        for b, i in F.calls():
+            fn = F.nodes[i].get("fn")
+            if fn in table and len(F.nodes[i]["a"]) > table[fn]:
+                a = F.nodes[i]["a"][table[fn]]
+                out[locks.lock_key(F, a)] = F.field_of(_resolve(F, a))
+    return out
+
 
 def rule_R1(P, rep):
     F = P.fn("thread_migrate_to_pool", T)
-    sel = seq.Sel(calls={"ABTI_thread_set_request", "ABTI_thread_get_mig_data"}, fields={"p_migration_pool"})
+    target = _param_of_type(F, "ABTI_pool *")
+    rep.need(target, "thread_migrate_to_pool has no single ABTI_pool * parameter")
+    sel = seq.Sel(calls={"ABTI_thread_set_request", "ABTI_thread_get_mig_data"}, fields={"p_migration_pool"}, canon=True)
     for toks, kind, rv, rtxt in seq.sequences(F, sel):
         if kind != "ret":
             continue
-        st = [i for i, t in enumerate(toks) if t[0] == "ast" and t[2].endswith("p_migration_pool")]
+        st = [i for i, t in enumerate(toks) if t[0] == "ast" and t[2] == MIG_POOL]
         rq = idx(toks, is_call("ABTI_thread_set_request"))
         if rv == 0:
-            ok = len(st) == 1 and len(rq) == 1 and st[0] < rq[0] and toks[st[0]][3] in ("p_pool", "(void *)p_pool")
+            # the stored value is the target-pool parameter (canonical value: casts and copies are looked through)
+            ok = len(st) == 1 and len(rq) == 1 and st[0] < rq[0] and toks[st[0]][3] == target
             why = "the handler reads the pool after seeing the request bit, so the pool must be stored first"
         else:
             ok = not st and not rq
             why = "error path must not publish a request"
-        rep.ob("R1", "thread_migrate_to_pool path -> %s [%s]" % (rtxt, show(toks)), ok, why, loc="%s:%d" % (F.file, F.line),
-               site="thread_migrate_to_pool/%s" % rtxt)
+        rep.ob("R1", "thread_migrate_to_pool path -> %s [%s]" % (_rlabel(rv, rtxt), show(toks)), ok, why,
+               loc="%s:%d" % (F.file, F.line), site="thread_migrate_to_pool/%s" % _rlabel(rv, rtxt))
     S = P.fn("ABTI_thread_set_request", required=False)
     if S is not None:
         c = [S.nodes[i] for b, i in S.calls() if (S.nodes[i].get("fn") or "").startswith("ABTD_atomic_fetch_or")]
@@ -53,9 +148,12 @@ def rule_R1(P, rep):
 
 def rule_R2(P, rep):
     F = P.fn("ABTI_thread_handle_request_migrate", T)
+    unit = _param_of_type(F, "ABTI_thread *")
+    rep.need(unit, "ABTI_thread_handle_request_migrate has no single ABTI_thread * parameter")
     sel = seq.Sel(calls={"ABTI_thread_set_associated_pool", "ABTI_thread_unset_request", "ABTI_thread_get_mig_data"},
-                  indirect=True, conds=lambda t: "f_migration_cb" in t)
+                  indirect=True, conds=lambda t: "registered" if t == MIG_CB else None, canon=True)
     kinds = set()
+    n_sa = 0
     for toks, kind, rv, rtxt in seq.sequences(F, sel):
         if kind != "ret":
             continue
@@ -67,14 +165,15 @@ def rule_R2(P, rep):
             kinds.add("ok")
             if len(sa) != 1 or len(un) != 1 or not sa[0] < un[0]:
                 why.append("must re-associate once and then clear the request once")
-            registered = has_if(toks, "p_mig_data->f_migration_cb", True)
+            registered = has_if(toks, "registered", True)     # canonical polarity: true = a callback is registered
             if registered != (len(cb) == 1) or len(cb) > 1:
                 why.append("callback registered=%s but invoked %d time(s)" % (registered, len(cb)))
             if cb:
                 call = F.nodes[toks[cb[0]][-1]]
-                args = [F.render(a) for a in call["a"]]
-                if F.render(call["fe"]) != "p_mig_data->f_migration_cb" or args != ["thread", "p_mig_data->p_migration_cb_arg"]:
-                    why.append("callback invoked as %s(%s)" % (F.render(call["fe"]), args))
+                slot = canon.expr(F, call["fe"])
+                args = _call_args(F, toks[cb[0]])
+                if slot != MIG_CB or args != ["ABTI_thread_get_handle(%s)" % unit, MIG_CB_ARG]:
+                    why.append("callback invoked as %s(%s)" % (slot, args))
                 if sa and un and not (sa[0] < cb[0] < un[0]):
                     why.append("callback must run after the re-association and before the request is cleared")
             if un and F.nodes[F.strip(F.nodes[toks[un[0]][-1]]["a"][1])].get("m", [None])[0] != "ABTI_THREAD_REQ_MIGRATE" and \
@@ -84,41 +183,52 @@ def rule_R2(P, rep):
             kinds.add("err")
             if cb or un:
                 why.append("error path invokes the callback or clears the request")
-        rep.ob("R2", "handle_request_migrate path -> %s [%s]" % (rtxt, show(toks)[:200]), not why, "; ".join(why),
-               loc="%s:%d" % (F.file, F.line), site="handle_request_migrate/%s/%d" % (rtxt, len(cb)))
+        rep.ob("R2", "handle_request_migrate path -> %s [%s]" % (_rlabel(rv, rtxt), show(toks)[:200]), not why, "; ".join(why),
+               loc="%s:%d" % (F.file, F.line), site="handle_request_migrate/%s/%d" % (_rlabel(rv, rtxt), len(cb)))
     rep.ob("R2", "handle_request_migrate has success and error paths", kinds == {"ok", "err"}, str(kinds), loc=F.file,
            site="handle_request_migrate/kinds")
-    # the pool handed to set_associated_pool is the one stored by the request
-    dec = [F.render(i) for b, i in F.all_events() if F.nodes[i].get("k") == "decl" and any(v["n"] == "p_pool" for v in F.nodes[i]["vars"])]
-    rep.ob("R2", "the new pool is the one stored in the request (p_migration_pool)", any("p_migration_pool" in d for d in dec),
-           str(dec), loc=F.file, site="handle_request_migrate/pool-source")
+    # the pool handed to set_associated_pool is the one stored by the request: the argument is (a copy of) an
+    # atomic load of the request's p_migration_pool
+    src = []
+    for b, i in F.calls("ABTI_thread_set_associated_pool"):
+        a = F.nodes[i]["a"]
+        src.append(canon.expr(F, a[2]) if len(a) >= 3 else "?")
+    pat = re.compile(r"^ABTD_atomic_(relaxed|acquire)_load_ptr\(&%s\)$" % re.escape(MIG_POOL))
+    rep.ob("R2", "the new pool is the one stored in the request (p_migration_pool)", bool(src) and all(pat.match(s) for s in src),
+           str(src), loc=F.file, site="handle_request_migrate/pool-source")
 
 
 APIS = ["ABT_thread_migrate_to_xstream", "ABT_thread_migrate_to_sched", "ABT_thread_migrate_to_pool", "ABT_thread_migrate"]
 
 
+def _is_cur_pool_cmp(label):
+    s = _eq_sides(label)
+    return s is not None and CUR_POOL in s and s[0] != s[1]
+
+
 def rule_R3(P, rep):
     TARGET = P.macro_int("ABT_ERR_MIGRATION_TARGET")
     rep.need(TARGET, "ABT_ERR_MIGRATION_TARGET not found")
+    MIGRATABLE = _macro_value(P, "ABTI_THREAD_TYPE_MIGRATABLE")
+    MAIN_SCHED = _macro_value(P, "ABTI_THREAD_TYPE_MAIN_SCHED")
+    rep.need(MIGRATABLE and MAIN_SCHED and MIGRATABLE != MAIN_SCHED, "values of ABTI_THREAD_TYPE_MIGRATABLE / _MAIN_SCHED not found")
+    flag = {"ABTI_thread::type & %d" % MIGRATABLE: "MIGRATABLE", "%d & ABTI_thread::type" % MIGRATABLE: "MIGRATABLE",
+            "ABTI_thread::type & %d" % MAIN_SCHED: "MAIN_SCHED", "%d & ABTI_thread::type" % MAIN_SCHED: "MAIN_SCHED"}
+
+    def conds(label, F, node):
+        # canonical labels: `X` stands for X != 0, `a == b` for equality whatever way round the test was written
+        if label in flag:
+            return flag[label]
+        if _is_cur_pool_cmp(label):
+            return "POOLEQ " + label
+        s = _eq_sides(label)
+        if s is not None and LAST_XSTREAM in s:
+            return "ITER"
+        return None
     polar = {}
     for api in APIS:
         F = P.fn(api, T)
-
-        def conds(text, F, node):
-            ms = seq.macros_in(F, node)
-            if "ABTI_THREAD_TYPE_MIGRATABLE" in ms:
-                return "MIGRATABLE"
-            if "ABTI_THREAD_TYPE_MAIN_SCHED" in ms:
-                return "MAIN_SCHED"
-            nd = F.nodes[F.strip(node)]
-            if nd.get("k") == "bin" and nd["op"] in ("==", "!="):
-                sides = [F.render(nd["lh"]), F.render(nd["rh"])]
-                if any(s.endswith("->p_pool") and "p_thread" in s for s in sides):
-                    return "POOLCMP" + nd["op"]
-                if any("p_last_xstream" in s for s in sides):
-                    return "ITER"
-            return False
-        sel = seq.Sel(calls={"thread_migrate_to_pool", "ABTI_sched_get_migration_pool"}, conds=conds, rets=True)
+        sel = seq.Sel(calls={"thread_migrate_to_pool", "ABTI_sched_get_migration_pool"}, conds=conds, rets=True, canon=True)
         ps = seq.sequences(F, sel, max_repeat=2, max_len=60)
         n_mig = 0
         n_cmp = 0
@@ -136,12 +246,15 @@ def rule_R3(P, rep):
                        "; ".join(why), loc="%s:%d" % (F.file, F.line), site="%s/flags" % api)
             # polarity of each pool comparison on this path: is the candidate still considered afterwards?
             for i, t in enumerate(toks):
-                if t[0] == "if" and t[1].startswith("POOLCMP"):
-                    equal = (t[1].endswith("==")) == t[2]
-                    nxt = [u for u in toks[i + 1:] if u[0] in ("ret", "call") or (u[0] == "if" and u[1] in ("ITER",) or
-                                                                                   (u[0] == "if" and u[1].startswith("POOLCMP")))]
+                if t[0] == "if" and t[1].startswith("POOLEQ"):
+                    equal = bool(t[2])
+                    # what happens next: a return, a request/lookup call, the next candidate stream, or the next pool
+                    # comparison.  The same comparison met again at another branch (its outcome was kept in a flag
+                    # that is tested later: same canonical label, other block) is not a new comparison.
+                    nxt = [u for u in toks[i + 1:] if u[0] in ("ret", "call") or (u[0] == "if" and u[1] == "ITER") or
+                           (u[0] == "if" and u[1].startswith("POOLEQ") and not (u[1] == t[1] and u[3] != t[3]))]
                     first = nxt[0] if nxt else None
-                    considered = first is not None and (first[0] == "call" or (first[0] == "if" and first[1].startswith("POOLCMP")))
+                    considered = first is not None and (first[0] == "call" or (first[0] == "if" and first[1].startswith("POOLEQ")))
                     n_cmp += 1
                     polar.setdefault(api, set()).add(("equal" if equal else "differ", "accept" if considered else "reject"))
                     if equal:
@@ -168,7 +281,8 @@ def rule_R3(P, rep):
 def rule_R4(P, rep):
     F = P.fn("ABT_thread_migrate", T)
     ts = locks.run_locks(P, F)
-    L = "&p_global->xstream_list_lock"
+    lf = _lock_fields(F)
+    LIST_LOCK = ("ABTI_global", "xstream_list_lock")
     n = 0
     for bid, b in F.blocks.items():
         for i in b.elems:
@@ -183,15 +297,18 @@ def rule_R4(P, rep):
                     continue
                 n += 1
                 helds = ts.at[j]
-                ok = all(any("xstream_list_lock" in k for k in h) for h in helds)
+                ok = all(any(lf.get(k) == LIST_LOCK for k in h) for h in helds)
                 rep.ob("R4", "ABT_thread_migrate reads %s::%s under xstream_list_lock" % (nd["r"], nd["f"]), ok,
                        "lock sets %s" % sorted(sorted(h) for h in helds), loc=F.loc(i), site="migrate/list-read/%s" % nd["f"])
     rep.need(n >= 3, "only %d stream-list reads found" % n)
     unb = [(k, nid, h) for k, nid, h, rv in ts.exits if k == "ret" and h]
     rep.ob("R4", "ABT_thread_migrate releases xstream_list_lock on every exit", not unb and not ts.errors,
            str([(F.loc(n) if n is not None else "", sorted(h)) for k, n, h in unb]), loc=F.file, site="migrate/lock-balance")
-    # array freed on all exits after a successful allocation
-    sel = seq.Sel(calls={"ABTU_malloc", "ABTU_free", "thread_migrate_to_pool"}, conds=lambda t: "abt_errno" in t, rets=True)
+    # array freed on all exits after a successful allocation.  The test of the allocation result is recognised by
+    # its canonical label (the ABTU_malloc call itself, whatever local holds the result; true = non-zero = failed);
+    # the array is the object whose address was handed to ABTU_malloc, whatever it is called.
+    sel = seq.Sel(calls={"ABTU_malloc", "ABTU_free", "thread_migrate_to_pool"},
+                  conds=lambda t: "ALLOCFAIL" if t.startswith("ABTU_malloc(") else None, rets=True, canon=True)
     for toks, kind, rv, rtxt in seq.sequences(F, sel, max_repeat=2, max_len=60):
         if kind != "ret":
             continue
@@ -199,21 +316,27 @@ def rule_R4(P, rep):
         if not m:
             continue
         fr = idx(toks, is_call("ABTU_free"))
-        alloc_failed = any(t[0] == "if" and "abt_errno" in t[1] and "!= 0" in t[1] and t[2] for t in toks[m[0]:m[0] + 3]) and not fr and rv != 0
-        ok = alloc_failed or (len(fr) == 1 and "var:xstreams" in toks[fr[0]][2])
-        rep.ob("R4", "ABT_thread_migrate frees its stream array exactly once on the exit -> %s" % rtxt, ok, show(toks)[-160:],
-               loc=F.file, site="migrate/array-freed/%s/%d" % (rtxt, len(fr)))
+        # same window as before: the outcome test directly follows the allocation (a lock release may intervene)
+        alloc_failed = any(t[0] == "if" and t[1] == "ALLOCFAIL" and t[2] for t in toks[m[0]:m[0] + 3]) and not fr and rv != 0
+        out = F.nodes[F.strip(F.nodes[toks[m[0]][-1]]["a"][1])]
+        arr = None
+        if out.get("k") == "un" and out["op"] == "&" and F.nodes[F.strip(out["e"])].get("k") == "ref":
+            arr = F.nodes[F.strip(out["e"])]["n"]
+        ok = alloc_failed or (len(fr) == 1 and arr is not None and _call_args(F, toks[fr[0]]) == [arr])
+        rep.ob("R4", "ABT_thread_migrate frees its stream array exactly once on the exit -> %s" % _rlabel(rv, rtxt), ok,
+               show(toks)[-160:], loc=F.file, site="migrate/array-freed/%s/%d" % (_rlabel(rv, rtxt), len(fr)))
     # skips the last stream and non-running streams before considering a candidate
-    RUN = P.enum_consts["ABT_XSTREAM_STATE_RUNNING"]
+    running = re.compile(r"^ABTD_atomic_(acquire|relaxed)_load_int\(&ABTI_xstream::state\) == (ABT_XSTREAM_STATE_RUNNING|%d)$"
+                         % P.enum_consts["ABT_XSTREAM_STATE_RUNNING"])
 
-    def conds(text, F, node):
-        if "p_last_xstream" in text:
-            return "LAST"
-        c = seq.atomic_cmp(F, node, "ABTI_xstream::state")
-        if c and c[2] == RUN:
-            return "RUNNING" + c[1]
-        return False
-    sel = seq.Sel(calls={"thread_migrate_to_pool"}, conds=conds)
+    def conds(label, F, node):
+        s = _eq_sides(label)
+        if s is not None and LAST_XSTREAM in s:
+            return "LAST"            # true = the candidate IS the unit's last stream
+        if running.match(label):
+            return "RUNNING"         # true = the candidate's state IS RUNNING
+        return None
+    sel = seq.Sel(calls={"thread_migrate_to_pool"}, conds=conds, canon=True)
     n = 0
     for toks, kind, rv, rtxt in seq.sequences(F, sel, max_repeat=1, max_len=40):
         mig = idx(toks, is_call("thread_migrate_to_pool"))
@@ -222,8 +345,8 @@ def rule_R4(P, rep):
         n += 1
         pre = toks[:mig[0]]
         last = [t for t in pre if t[0] == "if" and t[1] == "LAST"]
-        run = [t for t in pre if t[0] == "if" and t[1].startswith("RUNNING")]
-        ok = bool(last) and last[-1][2] is False and bool(run) and ((run[-1][1] == "RUNNING!=" and not run[-1][2]) or (run[-1][1] == "RUNNING==" and run[-1][2]))
+        run = [t for t in pre if t[0] == "if" and t[1] == "RUNNING"]
+        ok = bool(last) and last[-1][2] is False and bool(run) and run[-1][2] is True
         rep.ob("R4", "a candidate stream is neither the unit's last stream nor a non-RUNNING stream", ok, show(pre), loc=F.file,
                site="migrate/candidate-filter")
     rep.need(n >= 1, "ABT_thread_migrate: no candidate path")
@@ -237,3 +360,4 @@ def run(P, rep, tier):
     rule_R4(P, rep)
     C01._import(rep, P, C01.rule_R3, "R5")
     C01._import(rep, P, C01.rule_R5, "R5")
+    common.borrow(rep, P, C12.rule_R4, "R6")
